@@ -25,7 +25,7 @@ struct AB {
 }
 
 pub const ALPHABET: &[&str] = &[
-    "a", "é", "€", "😀", " ", "\n", "\r", "\r\n", "- ", ": ", "[", "]", "{", "}", ",", "\"", "'", "#", "&a ", "*a", "|\n", "---\n", "!t ", "\u{feff}", "\\", "1",
+    "a", "é", "€", "😀", " ", "\n", "\r", "\r\n", "- ", ": ", "[", "]", "{", "}", ",", "\"", "'", "#", "&a ", "*a", "|\n", "---\n", "!t ", "\u{feff}", "\\", "1", "%", "...\n", "|+\n",
 ];
 
 /// (variant name, line, column) of an error; io errors carry no position
@@ -313,7 +313,7 @@ pub fn run(ctx: &Ctx) -> i32 {
     acc.notes.insert("corpus_documents".into(), json!(corpus.len()));
     let meta = Meta {
         level: "model_checking",
-        rule: "every token string up to the length bound over a 26-token alphabet (multi-byte characters, CR/LF/CRLF, BOM, indicators) x 5 targets; per input: from_str vs from_slice vs closure helpers vs from_reader under ALL 2^(n-1) partitions of its n bytes (n <= partition bound; fixed chunk sizes beyond), BOM-stripping, borrowed vs owned; non-trivial = multi-byte, CR or '- ' present (a split can fall inside a character / between CR and LF / inside an indicator)".into(),
+        rule: "every token string up to the length bound over a 29-token alphabet (multi-byte characters, CR/LF/CRLF, BOM, indicators) x 5 targets; per input: from_str vs from_slice vs closure helpers vs from_reader under ALL 2^(n-1) partitions of its n bytes (n <= partition bound; fixed chunk sizes beyond), BOM-stripping, borrowed vs owned; non-trivial = multi-byte, CR or '- ' present (a split can fall inside a character / between CR and LF / inside an indicator)".into(),
         exhaustive: true,
         bounds: json!({"max_tokens": max_len, "alphabet": ALPHABET, "all_partitions_up_to_bytes": p.max_partition_bytes, "fixed_chunk_sizes_beyond": [1, 2, 3, 5, 8, 4096]}),
         assumptions: vec!["errors are compared by variant (after without_snippet) and line/column".into()],
